@@ -61,67 +61,6 @@ Proof. intros [n Hn]. exists (k * n)%Z. rewrite mult_IZR. rewrite Hn. ring. Qed.
 Lemma cong360_opp a b : cong360 a b -> cong360 (- a) (- b).
 Proof. intros [n Hn]. exists (- n)%Z. rewrite opp_IZR. lra. Qed.
 
-Lemma sin_cong360 a b : cong360 a b -> sin (a * (PI / 180)) = sin (b * (PI / 180)).
-Proof.
-  intros [n ->].
-  replace ((b + 360 * IZR n) * (PI / 180)) with (b * (PI / 180) + 2 * IZR n * PI) by field.
-  destruct (Z_le_gt_dec 0 n) as [Hn|Hn].
-  - rewrite <- (Z2Nat.id n Hn), <- INR_IZR_INZ. apply sin_period.
-  - assert (H : (0 <= - n)%Z) by lia.
-    rewrite <- (sin_period _ (Z.to_nat (- n))).
-    f_equal. rewrite INR_IZR_INZ, (Z2Nat.id _ H), opp_IZR. ring.
-Qed.
-Lemma cos_cong360 a b : cong360 a b -> cos (a * (PI / 180)) = cos (b * (PI / 180)).
-Proof.
-  intros [n ->].
-  replace ((b + 360 * IZR n) * (PI / 180)) with (b * (PI / 180) + 2 * IZR n * PI) by field.
-  destruct (Z_le_gt_dec 0 n) as [Hn|Hn].
-  - rewrite <- (Z2Nat.id n Hn), <- INR_IZR_INZ. apply cos_period.
-  - assert (H : (0 <= - n)%Z) by lia.
-    rewrite <- (cos_period _ (Z.to_nat (- n))).
-    f_equal. rewrite INR_IZR_INZ, (Z2Nat.id _ H), opp_IZR. ring.
-Qed.
-
-(* Angle(a) for any real a: an angle in (-360, 360) congruent to a *)
-Lemma Angle_new_any a : exists y,
-  Angle___init__ Rops blank (VTuple [VFloat a]) (VDict []) = ang y /\ cong360 y a /\ -360 < y < 360.
-Proof.
-  destruct (Rlt_dec (Rabs a) 360) as [Hs|Hb].
-  - exists a. split; [apply Angle_new_small; unfold Rabs in Hs; destruct (Rcase_abs a); lra|].
-    split; [apply cong360_refl | unfold Rabs in Hs; destruct (Rcase_abs a); lra].
-  - assert (Hb' : 360 <= Rabs a) by lra. clear Hb.
-    assert (Hq : Rabs a / 1 = Rabs a) by field.
-    assert (HF : Rfmod (Rabs a) 1 = Rabs a - IZR (Rfloor (Rabs a))).
-    { unfold Rfmod. rewrite Hq, Rtrunc_nonneg by lra. ring. }
-    assert (HT : Rtrunc (Rabs a) = Rfloor (Rabs a)) by (apply Rtrunc_nonneg; lra).
-    destruct (Rfloor_spec (Rabs a)) as [Hf1 Hf2].
-    assert (HF1 : 0 <= Rfmod (Rabs a) 1 < 1) by (rewrite HF; lra).
-    set (q := (Rfloor (Rabs a) / 360)%Z).
-    assert (Hmod : IZR (Rfloor (Rabs a) mod 360) = IZR (Rfloor (Rabs a)) - 360 * IZR q).
-    { unfold q. rewrite Z.mod_eq by lia. rewrite minus_IZR, mult_IZR. reflexivity. }
-    assert (Hm1 : 0 <= IZR (Rfloor (Rabs a) mod 360) <= 359).
-    { pose proof (Z.mod_pos_bound (Rfloor (Rabs a)) 360 ltac:(lia)) as [H1 H2].
-      split; apply IZR_le; lia. }
-    destruct (Rle_dec 0 a) as [Hpos|Hneg].
-    + assert (Ha : Rabs a = a) by (apply Rabs_right; lra).
-      exists (a - 360 * IZR q). split; [|split].
-      * destruct (Req_dec (Rfmod (Rabs a) 1) 0) as [H0|H0].
-        -- myrun. apply ang_ext. rewrite HT. ifclosed. Rlit_norm. rewrite Hmod. rewrite H0 in HF. lra.
-        -- assert (0 < Rfmod (Rabs a) 1) by lra. myrun. apply ang_ext. rewrite HT. Rlit_norm.
-           rewrite Hmod, HF. lra.
-      * exists (- q)%Z. rewrite opp_IZR. lra.
-      * rewrite Hmod in Hm1. rewrite HF in HF1. lra.
-    + assert (Ha : Rabs a = - a) by (apply Rabs_left; lra).
-      assert (Hlt : a < 0) by lra.
-      exists (a + 360 * IZR q). split; [|split].
-      * destruct (Req_dec (Rfmod (Rabs a) 1) 0) as [H0|H0].
-        -- myrun. apply ang_ext. rewrite HT. ifclosed. Rlit_norm. rewrite Hmod. rewrite H0 in HF. lra.
-        -- assert (0 < Rfmod (Rabs a) 1) by lra. myrun. apply ang_ext. rewrite HT. Rlit_norm.
-           rewrite Hmod, HF. lra.
-      * exists q. lra.
-      * rewrite Hmod in Hm1. rewrite HF in HF1. lra.
-Qed.
-
 (* Angle(0, 0, s): s arc seconds, |s| < 3600 *)
 Lemma Angle_dms_sec s : Rabs s < 3600 ->
   Angle___init__ Rops blank (VTuple [VInt 0; VInt 0; VFloat s]) (VDict []) = ang (s / 3600).
